@@ -19,6 +19,8 @@ pub fn parse_chunk(p: &mut LuaParser) {
     p.init();
     while p.current_token() != LuaTokenKind::TkEof {
         let consume_count = p.current_token_index();
+        #[cfg(feature = "verif")]
+        crate::verif::record_chunk_loop(consume_count);
         parse_stats(p);
 
         // Check if no token was consumed to prevent infinite loop
